@@ -22,6 +22,7 @@ From Coq Require Import ZArith List Bool Lia.
 From FT Require Import Base.Dict Model.Edit Model.EditExec Proofs.DictLemmas Proofs.EditInv Proofs.EditBook Proofs.EditInverse.
 From FT Require Proofs.EditWalk.
 From FT Require Gen.History_gen Proofs.HistoryGen Props.C02.
+From FT Require Proofs.EditBook Proofs.EditUAN Proofs.EditInverseNode.
 Import ListNotations.
 Open Scope Z_scope.
 
@@ -224,6 +225,59 @@ Theorem C01_history_is_generated : forall st a dA,
    end).
 Proof. exact FT.Props.C02.C02_edit_machine_uses_generated. Qed.
 
+(* ---- the remaining composites (Proofs/EditInverseNode.v).  rp_disjoint: time / track id / lineage id
+        are not regionprops keys.  pos_ok: without a segmentation the deleted node carries registered,
+        non-None positions (AddNode refuses to re-create a node with neither pixels nor position).
+        attrs_ok: distinct keys, integer time / track / lineage entries.  add_node_px_ok: the documented
+        precondition of AddNode (the node id labels nothing yet, the pixels lie in the node's frame and
+        are background). ---- *)
+Theorem C01_user_swap : forall st n1 n2 a st',
+  WF st -> user_swap_core st n1 n2 = Ok a st' ->
+  exists b st2, inv_action st' a = Ok b st2 /\ obs_eq st2 st.
+Proof. exact EditInverseNode.C01_user_swap. Qed.
+
+Theorem C01_user_delete_node : forall st n a st',
+  WF st -> EditBook.rp_disjoint st -> pos_ok st n ->
+  user_delete_node_core st n None = Ok a st' ->
+  exists b st2, inv_action st' a = Ok b st2 /\ obs_eq st2 st.
+Proof. exact EditInverseNode.C01_user_delete_node. Qed.
+
+Theorem C01_user_add_node : forall st n a px force act st',
+  WF st -> EditBook.rp_disjoint st -> EditUAN.attrs_ok a -> add_node_px_ok st n a px ->
+  user_add_node_core st n a px force = Ok act st' ->
+  exists b st2, inv_action st' act = Ok b st2 /\ obs_eq st2 st.
+Proof. exact EditInverseNode.C01_user_add_node. Qed.
+
+(* ---- "inverting the inverse reproduces the post-edit state", any number of times, and robustly:
+        [TrI W_dict a x y] = both ends have well-formed dictionaries and a can be undone, redone, undone ...
+        n times for every n, each time from ANY state with well-formed dictionaries that is observably equal
+        to the expected one, landing observably on the other end.  This is the hypothesis [Tr] of the
+        timeline theorem C02_timeline (see C02_edit_machine_timeline). ---- *)
+Theorem C01_consistent_delete_edge : forall st u v a st',
+  WF st -> user_delete_edge_core st u v = Ok a st' -> TrI W_dict a st st'.
+Proof. exact EditInverseNode.C01_user_delete_edge_consistent. Qed.
+
+Theorem C01_consistent_add_edge : forall st u v force a st',
+  WF st -> user_add_edge_core st u v force = Ok a st' -> TrI W_dict a st st'.
+Proof. exact EditInverseNode.C01_user_add_edge_consistent. Qed.
+
+Theorem C01_consistent_swap : forall st n1 n2 a st',
+  WF st -> user_swap_core st n1 n2 = Ok a st' -> TrI W_dict a st st'.
+Proof. exact EditInverseNode.C01_user_swap_consistent. Qed.
+
+Theorem C01_consistent_delete_node : forall st n pxo a st',
+  WF st -> EditBook.rp_disjoint st -> pos_ok st n -> del_node_px_exact st n pxo ->
+  user_delete_node_core st n pxo = Ok a st' -> TrI W_dict a st st'.
+Proof. exact EditInverseNode.C01_user_delete_node_consistent. Qed.
+
+Theorem C01_consistent_add_node : forall st n a px force act st',
+  WF st -> EditBook.rp_disjoint st -> EditUAN.attrs_ok a -> add_node_px_ok st n a px ->
+  (seg st <> None -> n <> 0) ->
+  (seg st = None -> forall k0, In k0 (pos_keys (ft st)) ->
+     In k0 (reg_node (ft st)) /\ exists v, lookup k0 a = Some v /\ v <> VNone) ->
+  user_add_node_core st n a px force = Ok act st' -> TrI W_dict act st st'.
+Proof. exact EditInverseNode.C01_user_add_node_consistent. Qed.
+
 Example C01_example_run :
   let s1 := step ex0 (OAddEdge 1 2 false) in
   let s2 := step (fst s1) OUndo in
@@ -335,3 +389,11 @@ Print Assumptions C01_trk_below_division.
 Print Assumptions C01_group.
 Print Assumptions C01_timeline_hypotheses.
 Print Assumptions C01_history_is_generated.
+Print Assumptions C01_user_swap.
+Print Assumptions C01_user_delete_node.
+Print Assumptions C01_user_add_node.
+Print Assumptions C01_consistent_delete_edge.
+Print Assumptions C01_consistent_add_edge.
+Print Assumptions C01_consistent_swap.
+Print Assumptions C01_consistent_delete_node.
+Print Assumptions C01_consistent_add_node.
